@@ -56,7 +56,9 @@ TInit == /\ tid \in 1..Len(Traces) /\ r = 1 /\ l = 1 /\ st = "run" /\ verdict = 
 Setup ==
     /\ phase = "setup"
     /\ LET k == Len(reg) - Len(Defaults) IN
-         IF k < Rq.nregs THEN AddHandler(T.reg[k + 1].cls, T.reg[k + 1].beh) ELSE Start
+         IF k >= Rq.nregs THEN Start
+         ELSE IF T.reg[k + 1].obj = Len(reg) + 1 THEN AddHandler(T.reg[k + 1].cls, T.reg[k + 1].beh)
+         ELSE AddSame(T.reg[k + 1].cls, T.reg[k + 1].obj)
     /\ UNCHANGED tvars
 
 (* the application-visible call the model stands at, if any *)
@@ -66,7 +68,7 @@ MSite == CASE phase = "req" /\ i <= N /\ "req" \in shape[i] /\ ~complete   -> <<
            [] phase = "responder" /\ target # "unrouted"                   -> <<RespSite, 0>>
            [] phase = "after" /\ i <= na                                   -> <<"after", i>>
            [] phase = "resp" /\ left # <<>>                                -> <<"resp", Head(left)>>
-           [] phase = "handle" /\ Handler(pend.cls) > Len(Defaults)        -> <<"handler", Handler(pend.cls)>>
+           [] phase = "handle" /\ Handler(pend.cls) > Len(Defaults)        -> <<"handler", reg[Handler(pend.cls)].obj>>
            [] OTHER                                                        -> <<"", 0>>
 
 RenderEvent == phase = "render" /\ HaveEv /\ Ev.site = "render"
@@ -91,7 +93,7 @@ Consume ==
               THEN Fail(IF MSite[1] = "handler" \/ Ev.site = "handler" THEN "P4:handler" ELSE "P3:order")
        ELSE IF MSite[1] = "resp" /\ Ev.ok # succeeded THEN Fail("P3:succeeded")
        ELSE IF MSite[1] = "handler" /\ Ev.x # ObsIdx(pend.idx) THEN Fail("P4:instance")
-       ELSE IF MSite[1] = "handler" /\ Ev.act # HandlerAct(reg[MSite[2]].beh) THEN Fail("H:handler-act")
+       ELSE IF MSite[1] = "handler" /\ Ev.act # HandlerAct(reg[Handler(pend.cls)].beh) THEN Fail("H:handler-act")
        ELSE IF MSite[1] # "handler" /\ Ev.act \notin ActsAt(MSite[1]) THEN Fail("H:act")
        ELSE IF MSite[1] # "handler" /\ Ev.act = "raise" /\ Ev.cls \notin DOMAIN TMro THEN Fail("H:cls")
        ELSE /\ \/ ReqCall(Ev.act, Ev.cls) \/ RsrcCall(Ev.act, Ev.cls) \/ BeforeCall(Ev.act, Ev.cls)
